@@ -1,1 +1,437 @@
-From Gnmi Require Import Base.Prelude.
+(** Proofs about LatencyModel.v: every statistic an update writes for a window is
+    bounded by the samples of the slots the window retains; the average up to
+    the scaling factor (the configured precision).  All on unbounded [Z]. *)
+From Gnmi Require Import Base.Prelude Latency.LatencyModel.
+From Coq Require Import Sorting.Sorted Lia.
+Local Open Scope Z_scope.
+
+(** * Arithmetic *)
+
+Definition sumq (sf : Z) (S : list Z) : Z := fold_right (fun d a => Z.quot d sf + a) 0 S.
+
+Lemma sumq_app sf a b : sumq sf (a ++ b) = sumq sf a + sumq sf b.
+Proof. unfold sumq. induction a as [|x a IH]; cbn [app fold_right]; lia. Qed.
+
+Lemma quot_scaled_bounds d sf : 1 <= sf -> d - sf < sf * Z.quot d sf < d + sf.
+Proof.
+  intros Hsf. pose proof (Z.quot_rem' d sf) as Hq.
+  pose proof (Z.rem_bound_abs d sf ltac:(lia)) as Hr. lia.
+Qed.
+
+Lemma sumq_ge sf c S : (forall d, In d S -> c <= Z.quot d sf) -> Z.of_nat (List.length S) * c <= sumq sf S.
+Proof.
+  induction S as [|x S IH]; intros H; [cbn; lia|].
+  cbn [sumq fold_right List.length]. fold (sumq sf S).
+  specialize (IH (fun d Hd => H d (or_intror Hd))). specialize (H x (or_introl eq_refl)). lia.
+Qed.
+
+Lemma sumq_le sf c S : (forall d, In d S -> Z.quot d sf <= c) -> sumq sf S <= Z.of_nat (List.length S) * c.
+Proof.
+  induction S as [|x S IH]; intros H; [cbn; lia|].
+  cbn [sumq fold_right List.length]. fold (sumq sf S).
+  specialize (IH (fun d Hd => H d (or_intror Hd))). specialize (H x (or_introl eq_refl)). lia.
+Qed.
+
+(** the truncated mean of the scaled samples, scaled back, stays within the
+    sample bounds widened by the scaling factor (strictly) *)
+Lemma avg_bounds sf S lo hi :
+  1 <= sf -> S <> [] -> (forall d, In d S -> lo <= d <= hi) ->
+  lo - sf < Z.quot (sumq sf S) (Z.of_nat (List.length S)) * sf < hi + sf.
+Proof.
+  intros Hsf Hne Hb.
+  set (n := Z.of_nat (List.length S)). set (T := sumq sf S). set (A := Z.quot T n).
+  assert (Hn : 1 <= n) by (subst n; destruct S; [contradiction|cbn [List.length]; lia]).
+  pose proof (Z.quot_rem' T n) as Hq. pose proof (Z.rem_bound_abs T n ltac:(lia)) as Hr.
+  fold A in Hq.
+  assert (Hs : forall d, In d S -> lo - sf < sf * Z.quot d sf < hi + sf).
+  { intros d Hd. pose proof (quot_scaled_bounds d sf Hsf). specialize (Hb d Hd). lia. }
+  split.
+  - destruct (Z_lt_le_dec (lo - sf) (A * sf)) as [|Hc]; [assumption|exfalso].
+    assert (Hall : forall d, In d S -> A + 1 <= Z.quot d sf).
+    { intros d Hd. specialize (Hs d Hd). nia. }
+    pose proof (sumq_ge sf (A + 1) S Hall) as Hsum. fold n in Hsum. fold T in Hsum. lia.
+  - destruct (Z_lt_le_dec (A * sf) (hi + sf)) as [|Hc]; [assumption|exfalso].
+    assert (Hall : forall d, In d S -> Z.quot d sf <= A - 1).
+    { intros d Hd. specialize (Hs d Hd). nia. }
+    pose proof (sumq_le sf (A - 1) S Hall) as Hsum. fold n in Hsum. fold T in Hsum. lia.
+Qed.
+
+(** * Invariants *)
+
+(** a closed slot summarises its (non-empty) sample list *)
+Record slot_ok (sf : Z) (s : slot) : Prop := {
+  so_ne : sl_samples s <> [];
+  so_count : sl_count s = Z.of_nat (List.length (sl_samples s));
+  so_total : sl_total s = sumq sf (sl_samples s);
+  so_max : sl_max s = 0 \/ In (sl_max s) (sl_samples s);
+  so_min : In (sl_min s) (sl_samples s)
+}.
+
+(** the accumulators between two updates *)
+Record acc_ok (l : lat) : Prop := {
+  ao_count : l_count l = Z.of_nat (List.length (l_samples l));
+  ao_total : l_total l = sumq (l_sf l) (l_samples l);
+  ao_max : l_max l = 0 \/ In (l_max l) (l_samples l);
+  ao_min : (l_samples l = [] /\ l_min l = 0) \/ In (l_min l) (l_samples l)
+}.
+
+Definition tot (ss : list slot) : Z := fold_right (fun s a => sl_total s + a) 0 ss.
+Definition cnt (ss : list slot) : Z := fold_right (fun s a => sl_count s + a) 0 ss.
+
+Definition by_end (a b : slot) : Prop := sl_end a <= sl_end b.
+
+Record win_ok (sf : Z) (w : window) : Prop := {
+  wo_sf : w_sf w = sf;
+  wo_slots : Forall (slot_ok sf) (w_slots w);
+  wo_total : w_total w = tot (w_slots w);
+  wo_count : w_count w = cnt (w_slots w);
+  wo_sorted : StronglySorted by_end (w_slots w)
+}.
+
+(** [T]: no slot ends after [T] (the time of the last update) *)
+Definition lat_inv (T : Z) (l : lat) : Prop :=
+  1 <= l_sf l /\ acc_ok l /\ Forall (win_ok (l_sf l)) (l_windows l) /\
+  Forall (fun w => Forall (fun s => sl_end s <= T) (w_slots w)) (l_windows l).
+
+Lemma lat_new_inv sizes p T : 0 <= p -> lat_inv T (lat_new sizes p).
+Proof.
+  intros Hp. unfold lat_new. cbv zeta. set (sf := if Z.eqb p 0 then 1 else p).
+  assert (Hsf : 1 <= sf) by (subst sf; destruct (Z.eqb_spec p 0); lia).
+  split; [exact Hsf|]. split.
+  { constructor; cbn; auto. }
+  split; apply Forall_forall; intros w Hw; apply in_map_iff in Hw; destruct Hw as (sz & <- & _).
+  - constructor; cbn; auto; constructor.
+  - constructor.
+Qed.
+
+Lemma lat_compute_inv T l now ts : lat_inv T l -> lat_inv T (lat_compute l now ts).
+Proof.
+  intros (Hsf & [Hc Ht Hmx Hmn] & Hw & He). unfold lat_compute. cbv zeta.
+  split; [exact Hsf|]. split; [|split; assumption].
+  constructor; cbn [l_count l_samples l_total l_sf l_max l_min].
+  - rewrite app_length. cbn. lia.
+  - rewrite sumq_app. cbn. lia.
+  - destruct (Z.ltb (l_max l) (now - ts)).
+    + right. apply in_or_app. right. now left.
+    + destruct Hmx as [H|H]; [now left|right; apply in_or_app; now left].
+  - right. destruct (Z.ltb (now - ts) (l_min l) || Z.eqb (l_min l) 0) eqn:E.
+    + apply in_or_app. right. now left.
+    + destruct Hmn as [[_ H0]|H]; [|apply in_or_app; now left].
+      rewrite H0 in E. cbn in E. now rewrite orb_true_r in E.
+Qed.
+
+(** ** add *)
+
+Lemma tot_app a b : tot (a ++ b) = tot a + tot b.
+Proof. unfold tot. induction a as [|x a IH]; cbn [app fold_right]; lia. Qed.
+Lemma cnt_app a b : cnt (a ++ b) = cnt a + cnt b.
+Proof. unfold cnt. induction a as [|x a IH]; cbn [app fold_right]; lia. Qed.
+
+Lemma sorted_snoc (l : list slot) s :
+  StronglySorted by_end l -> Forall (fun x => sl_end x <= sl_end s) l -> StronglySorted by_end (l ++ [s]).
+Proof.
+  induction 1 as [|a l Hs IH Ha]; intros Hle; cbn; [repeat constructor|].
+  inversion Hle as [|? ? Hax Hl]; subst. constructor; [auto|].
+  apply Forall_app. split; [exact Ha|constructor; [exact Hax|constructor]].
+Qed.
+
+Lemma win_add_ok sf w s :
+  win_ok sf w -> slot_ok sf s -> Forall (fun x => sl_end x <= sl_end s) (w_slots w) ->
+  win_ok sf (win_add w s).
+Proof.
+  intros [H1 H2 H3 H4 H5] Hs Hle. unfold win_add. destruct (Z.eqb (sl_count s) 0); [constructor; assumption|].
+  constructor; cbn [w_sf w_slots w_total w_count]; auto.
+  - apply Forall_app. split; [assumption|constructor; [assumption|constructor]].
+  - rewrite tot_app. cbn. lia.
+  - rewrite cnt_app. cbn. lia.
+  - now apply sorted_snoc.
+Qed.
+
+(** ** slide *)
+
+Lemma sorted_split c (l : list slot) :
+  StronglySorted by_end l ->
+  l = filter (expired c) l ++ filter (fun s => negb (expired c s)) l.
+Proof.
+  induction 1 as [|a l Hs IH Ha]; [reflexivity|]. cbn [filter].
+  destruct (expired c a) eqn:E; cbn [negb].
+  - cbn. now rewrite <- IH.
+  - assert (Hnone : filter (expired c) l = []).
+    { clear IH. induction l as [|b l IHl]; [reflexivity|]. cbn.
+      inversion Ha as [|? ? Hab Hl]; subst. inversion Hs; subst.
+      unfold expired, by_end in *. destruct (Z.leb_spec (sl_end b) c); [|auto].
+      destruct (Z.leb_spec (sl_end a) c); [discriminate|lia]. }
+    rewrite Hnone. cbn. f_equal.
+    clear IH Hnone. induction l as [|b l IHl]; [reflexivity|]. cbn.
+    inversion Ha as [|? ? Hab Hl]; subst. inversion Hs; subst.
+    unfold expired, by_end in *.
+    destruct (Z.leb_spec (sl_end b) c); cbn; [destruct (Z.leb_spec (sl_end a) c); [discriminate|lia]|].
+    f_equal. auto.
+Qed.
+
+Lemma sorted_filter (P : slot -> bool) l : StronglySorted by_end l -> StronglySorted by_end (filter P l).
+Proof.
+  induction 1 as [|a l Hs IH Ha]; cbn; [constructor|]. destruct (P a); [|exact IH].
+  constructor; [exact IH|]. rewrite Forall_forall in *. intros x Hx. apply filter_In in Hx. apply Ha. tauto.
+Qed.
+
+(** after slide the window holds exactly the slots ending after the cutoff,
+    and its running totals are theirs *)
+Lemma win_slide_ok sf w ts :
+  win_ok sf w ->
+  win_ok sf (win_slide w ts) /\
+  w_slots (win_slide w ts) = filter (fun s => negb (expired (ts - w_size w) s)) (w_slots w).
+Proof.
+  intros [H1 H2 H3 H4 H5]. unfold win_slide. cbv zeta.
+  set (c := ts - w_size w). pose proof (sorted_split c (w_slots w) H5) as Hsp.
+  set (gone := filter (expired c) (w_slots w)) in *.
+  set (kept := filter (fun s => negb (expired c s)) (w_slots w)) in *.
+  assert (Hk : skipn (List.length gone) (w_slots w) = kept).
+  { rewrite Hsp at 1. rewrite skipn_app, skipn_all, Nat.sub_diag. reflexivity. }
+  split; [|exact Hk].
+  constructor; cbn [w_sf w_slots w_total w_count]; auto.
+  - rewrite Hk. subst kept. rewrite Forall_forall in *. intros x Hx. apply filter_In in Hx. apply H2. tauto.
+  - rewrite Hk, H3. rewrite Hsp at 1. rewrite tot_app. fold (tot gone). lia.
+  - rewrite Hk, H4. rewrite Hsp at 1. rewrite cnt_app. fold (cnt gone). lia.
+  - rewrite Hk. subst kept. now apply sorted_filter.
+Qed.
+
+(** * Bounds of the three statistics *)
+
+Definition wsamples (w : window) : list Z := flat_map sl_samples (w_slots w).
+
+Lemma tot_sumq sf ss : Forall (slot_ok sf) ss -> tot ss = sumq sf (flat_map sl_samples ss).
+Proof.
+  induction 1 as [|s ss Hs _ IH]; [reflexivity|]. cbn [tot fold_right flat_map]. fold (tot ss).
+  rewrite sumq_app, IH, (so_total _ _ Hs). lia.
+Qed.
+
+Lemma cnt_length sf ss : Forall (slot_ok sf) ss -> cnt ss = Z.of_nat (List.length (flat_map sl_samples ss)).
+Proof.
+  induction 1 as [|s ss Hs _ IH]; [reflexivity|]. cbn [cnt fold_right flat_map]. fold (cnt ss).
+  rewrite app_length, IH, (so_count _ _ Hs). lia.
+Qed.
+
+Lemma nz_some z v : nz z = Some v -> v = z /\ z <> 0.
+Proof. unfold nz. destruct (Z.eqb_spec z 0); [discriminate|]. intros H; inversion H; subst; split; [reflexivity|assumption]. Qed.
+
+Lemma win_max_in sf w v : win_ok sf w -> win_max w = Some v -> In v (wsamples w).
+Proof.
+  intros [_ H2 _ _ _] Hm. unfold win_max in Hm. apply nz_some in Hm. destruct Hm as [-> Hnz].
+  unfold wsamples.
+  assert (G : forall ss acc, Forall (slot_ok sf) ss -> 0 <= acc ->
+            let r := fold_left (fun m s => if Z.ltb m (sl_max s) then sl_max s else m) ss acc in
+            r = acc \/ In r (flat_map sl_samples ss)).
+  { induction ss as [|s ss IH]; intros acc Hf Hacc; cbn; [now left|].
+    inversion Hf as [|? ? Hs Hss]; subst.
+    destruct (Z.ltb_spec acc (sl_max s)) as [Hlt|Hge].
+    - destruct (IH (sl_max s) Hss ltac:(lia)) as [E|E]; cbv zeta in E.
+      + rewrite E. destruct (so_max _ _ Hs) as [H0|Hin]; [lia|right; apply in_or_app; now left].
+      + right. apply in_or_app. now right.
+    - destruct (IH acc Hss Hacc) as [E|E]; cbv zeta in E; [now left|right; apply in_or_app; now right]. }
+  destruct (G (w_slots w) 0 H2 ltac:(lia)) as [E|E]; cbv zeta in E; [contradiction|exact E].
+Qed.
+
+Lemma win_min_in sf w v : win_ok sf w -> win_min w = Some v -> In v (wsamples w).
+Proof.
+  intros [_ H2 _ _ _] Hm. unfold win_min in Hm. unfold wsamples.
+  destruct (w_slots w) as [|s0 rest]; [discriminate|].
+  apply nz_some in Hm. destruct Hm as [-> _].
+  inversion H2 as [|? ? Hs0 Hrest]; subst. cbn [flat_map].
+  assert (G : forall ss acc pre, Forall (slot_ok sf) ss -> In acc pre ->
+            In (fold_left (fun m s => if Z.ltb (sl_min s) m then sl_min s else m) ss acc)
+               (pre ++ flat_map sl_samples ss)).
+  { induction ss as [|s ss IH]; intros acc pre Hf Hin; cbn; [rewrite app_nil_r; exact Hin|].
+    inversion Hf as [|? ? Hs Hss]; subst. rewrite app_assoc. apply IH; [exact Hss|].
+    destruct (Z.ltb (sl_min s) acc); apply in_or_app; [right; exact (so_min _ _ Hs)|now left]. }
+  apply G; [exact Hrest|exact (so_min _ _ Hs0)].
+Qed.
+
+Lemma win_avg_bounds sf w v lo hi :
+  1 <= sf -> win_ok sf w -> win_avg w = Some v ->
+  (forall d, In d (wsamples w) -> lo <= d <= hi) ->
+  wsamples w <> [] /\ lo - sf < v < hi + sf.
+Proof.
+  intros Hsf [H1 H2 H3 H4 _] Ha Hb. unfold win_avg in Ha.
+  destruct (Z.eqb_spec (w_count w) 0) as [|Hc]; [discriminate|].
+  destruct (nz (Z.quot (w_total w) (w_count w))) as [n|] eqn:En; [|discriminate].
+  inversion Ha; subst v. apply nz_some in En. destruct En as [-> _].
+  rewrite H3, H4, (tot_sumq sf _ H2), (cnt_length sf _ H2), H1. fold (wsamples w).
+  assert (Hne : wsamples w <> []).
+  { intros E. rewrite H4, (cnt_length sf _ H2) in Hc. fold (wsamples w) in Hc. rewrite E in Hc. now cbn in Hc. }
+  split; [exact Hne|]. now apply avg_bounds.
+Qed.
+
+(** * One update *)
+
+(** what an update returns for a window, together with the window afterwards *)
+Definition stats_bounded (w' : window) (st : wstats) : Prop :=
+  (forall v, ws_max st = Some v -> In v (wsamples w')) /\
+  (forall v, ws_min st = Some v -> In v (wsamples w')) /\
+  (forall v lo hi, ws_avg st = Some v ->
+     (forall d, In d (wsamples w') -> lo <= d <= hi) ->
+     wsamples w' <> [] /\ lo - w_sf w' < v < hi + w_sf w').
+
+Lemma win_is_covered_ok sf w ts : win_ok sf w -> win_ok sf (fst (win_is_covered w ts)) /\
+  w_slots (fst (win_is_covered w ts)) = w_slots w /\ w_size (fst (win_is_covered w ts)) = w_size w.
+Proof.
+  intros H. unfold win_is_covered. destruct (w_covered w); [auto|].
+  destruct (w_slots w) as [|s0 rest] eqn:E; [cbn [fst]; rewrite E; auto|].
+  destruct (match sl_start s0 with Some st => Z.leb (w_size w) (ts - st) | None => true end);
+    cbn [fst w_slots w_size]; [|rewrite E; auto].
+  split; [|split; reflexivity].
+  destruct H as [H1 H2 H3 H4 H5]. rewrite <- E. constructor; cbn [w_sf w_slots w_total w_count]; auto.
+Qed.
+
+Lemma win_update_meta_ok sf w ts ignore :
+  1 <= sf -> win_ok sf w ->
+  let r := win_update_meta w ts ignore in
+  win_ok sf (fst r) /\
+  (forall x, In x (w_slots (fst r)) -> In x (w_slots w)) /\
+  (forall st, snd r = Some st ->
+     stats_bounded (fst r) st /\
+     w_slots (fst r) = filter (fun s => negb (expired (ts - w_size w) s)) (w_slots w)).
+Proof.
+  intros Hsf Hw. unfold win_update_meta.
+  set (pc := if ignore then (w, true) else win_is_covered w ts).
+  assert (Hpc : win_ok sf (fst pc) /\ w_slots (fst pc) = w_slots w /\ w_size (fst pc) = w_size w).
+  { subst pc. destruct ignore; [cbn; auto|]. now apply win_is_covered_ok. }
+  destruct pc as [w1 cov]. cbn [fst] in Hpc. destruct Hpc as (Hw1 & Hs1 & Hz1).
+  destruct cov; cbn [fst snd].
+  - destruct (win_slide_ok sf w1 ts Hw1) as [Hw2 Hk]. split; [exact Hw2|]. split.
+    { intros x Hx. rewrite Hk, Hs1 in Hx. apply filter_In in Hx. tauto. }
+    intros st E. inversion E; subst st. split; [|now rewrite Hk, Hs1, Hz1].
+    split; [|split]; cbn [ws_max ws_min ws_avg].
+    + intros v Hv. eapply win_max_in; eauto.
+    + intros v Hv. eapply win_min_in; eauto.
+    + intros v lo hi Hv Hb. rewrite (wo_sf _ _ Hw2). eapply win_avg_bounds; eauto.
+  - split; [exact Hw1|]. split; [intros x Hx; now rewrite Hs1 in Hx|discriminate].
+Qed.
+
+(** latency_bounds, one update: under the invariant and a clock that did not
+    run backwards since the last update ([T <= ts]), the invariant holds again
+    (with [ts]) and every statistic written for a window is bounded by the
+    samples of the slots that window retains -- exactly the slots ending after
+    [ts - size] *)
+Theorem lat_update_bounds T l ts ignore :
+  lat_inv T l -> T <= ts ->
+  lat_inv ts (fst (lat_update l ts ignore)) /\
+  Forall2 (fun w' o => forall st, o = Some st ->
+             stats_bounded w' st /\
+             Forall (fun s => ts - w_size w' < sl_end s) (w_slots w'))
+          (l_windows (fst (lat_update l ts ignore))) (snd (lat_update l ts ignore)).
+Proof.
+  intros (Hsf & Hacc & Hw & He) HT. unfold lat_update. cbv zeta.
+  set (s := Slot (l_total l) (l_max l) (l_min l) (l_count l) (l_start l) ts (l_samples l)).
+  set (ws1 := if Z.eqb (l_count l) 0 then l_windows l else map (fun w => win_add w s) (l_windows l)).
+  assert (H1 : Forall (win_ok (l_sf l)) ws1 /\
+               Forall (fun w => Forall (fun x => sl_end x <= ts) (w_slots w)) ws1).
+  { subst ws1. destruct (Z.eqb_spec (l_count l) 0) as [E0|E0].
+    - split; [exact Hw|]. eapply Forall_impl; [|exact He]. cbn. intros w Hf.
+      eapply Forall_impl; [|exact Hf]. cbn. intros; lia.
+    - assert (Hs : slot_ok (l_sf l) s).
+      { destruct Hacc as [Hc Ht Hmx Hmn]. constructor; cbn [sl_samples sl_count sl_total sl_max sl_min s]; auto.
+        - intros E. rewrite E in Hc. now cbn in Hc.
+        - destruct Hmn as [[E _]|H]; [|exact H]. rewrite E in Hc. now cbn in Hc. }
+      split; apply Forall_forall; intros w' Hin; apply in_map_iff in Hin; destruct Hin as (w & <- & Hin);
+        rewrite Forall_forall in Hw, He; specialize (Hw w Hin); specialize (He w Hin).
+      + apply win_add_ok; auto. eapply Forall_impl; [|exact He]. cbn. intros; lia.
+      + unfold win_add. destruct (Z.eqb (sl_count s) 0); cbn [w_slots].
+        * eapply Forall_impl; [|exact He]. cbn. intros; lia.
+        * apply Forall_app. split; [eapply Forall_impl; [|exact He]; cbn; intros; lia|].
+          constructor; [cbn; lia|constructor]. }
+  clearbody ws1. destruct H1 as [Hw1 He1].
+  assert (Hres : Forall (fun w => let r := win_update_meta w ts ignore in
+              win_ok (l_sf l) (fst r) /\ Forall (fun x => sl_end x <= ts) (w_slots (fst r)) /\
+              (forall st, snd r = Some st -> stats_bounded (fst r) st /\
+                 Forall (fun s => ts - w_size (fst r) < sl_end s) (w_slots (fst r)))) ws1).
+  { apply Forall_forall. intros w Hin. rewrite Forall_forall in Hw1, He1.
+    destruct (win_update_meta_ok (l_sf l) w ts ignore Hsf (Hw1 w Hin)) as (A & B & C). cbv zeta.
+    split; [exact A|]. split.
+    { apply Forall_forall. intros x Hx. specialize (He1 w Hin). rewrite Forall_forall in He1. auto. }
+    intros st E. destruct (C st E) as [C1 C2]. split; [exact C1|].
+    rewrite C2. apply Forall_forall. intros x Hx. apply filter_In in Hx. destruct Hx as [_ Hx].
+    unfold expired in Hx.
+    assert (Hz : w_size (fst (win_update_meta w ts ignore)) = w_size w).
+    { unfold win_update_meta. destruct ignore.
+      - cbn. reflexivity.
+      - destruct (win_is_covered_ok (l_sf l) w ts (Hw1 w Hin)) as (_ & _ & Hz).
+        destruct (win_is_covered w ts) as [w1 cov]. cbn [fst] in *. destruct cov; cbn; auto. }
+    rewrite Hz. destruct (Z.leb_spec (sl_end x) (ts - w_size w)); [discriminate|lia]. }
+  split.
+  - assert (Hwin : Forall (win_ok (l_sf l)) (map fst (map (fun w => win_update_meta w ts ignore) ws1)) /\
+                   Forall (fun w => Forall (fun x => sl_end x <= ts) (w_slots w))
+                          (map fst (map (fun w => win_update_meta w ts ignore) ws1))).
+    { rewrite map_map. split; apply Forall_forall; intros w' Hin; apply in_map_iff in Hin;
+        destruct Hin as (w & <- & Hin); rewrite Forall_forall in Hres; destruct (Hres w Hin) as (A & B & _); auto. }
+    destruct Hwin as [HA HB].
+    destruct (Z.eqb (l_count l) 0); cbn [fst]; (split; [exact Hsf|split; [|split; [exact HA|exact HB]]]).
+    + destruct Hacc as [Hc Ht Hmx Hmn]. constructor; cbn [l_count l_samples l_total l_sf l_max l_min]; auto.
+    + constructor; cbn; auto.
+  - assert (HF : Forall2 (fun w' o => forall st, o = Some st -> stats_bounded w' st /\
+                   Forall (fun s => ts - w_size w' < sl_end s) (w_slots w'))
+                   (map fst (map (fun w => win_update_meta w ts ignore) ws1))
+                   (map snd (map (fun w => win_update_meta w ts ignore) ws1))).
+    { rewrite !map_map. clear -Hres. induction ws1 as [|w ws IH]; cbn; [constructor|].
+      inversion Hres as [|? ? Hh Ht]; subst. constructor; [|auto].
+      destruct Hh as (_ & _ & C). exact C. }
+    destruct (Z.eqb (l_count l) 0); cbn [fst snd l_windows]; exact HF.
+Qed.
+
+(** * All histories *)
+
+Definition lrun (l : lat) (ops : list lop) : lat := fold_left (fun l o => fst (lstep l o)) ops l.
+
+(** update times do not decrease (Compute may happen at any time) *)
+Fixpoint mono_from (T : Z) (ops : list lop) : Prop :=
+  match ops with
+  | [] => True
+  | LCompute _ _ :: r => mono_from T r
+  | LUpdate t :: r | LUpdateLast t :: r => T <= t /\ mono_from t r
+  end.
+
+Fixpoint last_update (T : Z) (ops : list lop) : Z :=
+  match ops with
+  | [] => T
+  | LCompute _ _ :: r => last_update T r
+  | LUpdate t :: r | LUpdateLast t :: r => last_update t r
+  end.
+
+Theorem lrun_inv ops : forall T l, lat_inv T l -> mono_from T ops -> lat_inv (last_update T ops) (lrun l ops).
+Proof.
+  induction ops as [|o ops IH]; intros T l Hl Hm; [exact Hl|].
+  unfold lrun. cbn [fold_left]. fold (lrun (fst (lstep l o)) ops).
+  destruct o as [now ts|t|t]; cbn [mono_from last_update lstep fst] in *.
+  - apply IH; [now apply lat_compute_inv|exact Hm].
+  - destruct Hm as [Ht Hm]. apply IH; [|exact Hm]. exact (proj1 (lat_update_bounds T l t false Hl Ht)).
+  - destruct Hm as [Ht Hm]. apply IH; [|exact Hm]. exact (proj1 (lat_update_bounds T l t true Hl Ht)).
+Qed.
+
+(** latency_bounds: after any history with non-decreasing update times on a
+    fresh Latency, whatever the next update (UpdateReset or UpdateLast) writes
+    for a window lies within the samples of the slots the window retains,
+    which are exactly the batches closed after [t - window]; the average within
+    the precision *)
+Theorem latency_bounds sizes p ops t ignore :
+  0 <= p -> mono_from 0 ops -> last_update 0 ops <= t ->
+  let l := lrun (lat_new sizes p) ops in
+  Forall2 (fun w' o => forall st, o = Some st ->
+             stats_bounded w' st /\
+             Forall (fun s => t - w_size w' < sl_end s) (w_slots w'))
+          (l_windows (fst (lat_update l t ignore))) (snd (lat_update l t ignore)).
+Proof.
+  intros Hp Hm Ht l.
+  pose proof (lrun_inv ops 0 (lat_new sizes p) (lat_new_inv sizes p 0 Hp) Hm) as Hinv.
+  exact (proj2 (lat_update_bounds _ _ t ignore Hinv Ht)).
+Qed.
+
+(** ** Example: the hypotheses are satisfiable and statistics are written *)
+Definition ex_lops : list lop :=
+  [LCompute 100 95; LCompute 101 101; LUpdate 110; LCompute 115 118; LCompute 118 100; LUpdate 120;
+   LCompute 125 0; LUpdate 130].
+
+Example ex_latency :
+  mono_from 0 ex_lops /\ last_update 0 ex_lops <= 140 /\
+  snd (lat_update (lrun (lat_new [20; 40] 2) ex_lops) 140 false) =
+    [Some (WS (Some 124) (Some 125) (Some 125)); Some (WS (Some 28) (Some 125) (Some (-3)))].
+Proof. split; [cbn; lia|]. split; [cbn; lia|]. vm_compute. reflexivity. Qed.
